@@ -28,7 +28,7 @@ def shards(tier, seed):
 
 def floors(tier):
     f = {"programs:A": 300, "programs:B": 150, "programs:no_MR": 50, "programs:no_ee_cnot": 50, "programs:no_one_qubit_gate": 10,
-         "programs:with_wrappers_and_identities": 100, "programs:re_evaluated_after_removal": 200, "programs:A_with_Z_measurement": 40, "programs:scored_by_reused_metric_objects": 150}
+         "programs:with_wrappers_and_identities": 100, "programs:re_evaluated_after_removal": 200, "programs:A_with_Z_measurement": 40, "programs:scored_by_reused_metric_objects": 150, "programs:re_evaluated_after_replacement": 100}
     for m in METRICS:
         f["metric:" + m] = 300
     return f
@@ -187,7 +187,7 @@ def check_metrics(prog, circ, klass, rng, ctx, case, stage, pool=None):
             circ.remove_identity()
             prog.spec_remove_identity()
             edits.append("remove_identity")
-        else:
+        elif rng.random() < 0.5:
             for _ in range(int(rng.integers(1, 3))):
                 live = sorted(prog.live_ops(), key=lambda o: o.id)
                 if not live:
@@ -199,5 +199,29 @@ def check_metrics(prog, circ, klass, rng, ctx, case, stage, pool=None):
                 circ.remove_op(node[0])
                 prog.remove(o.id)
                 edits.append("remove " + o.text())
+        else:
+            # replacements keep the node and change what sits on it: a two-qubit gate changes its type (CNOT <-> CZ, after which
+            # only the metrics of class B are determined), a one-qubit gate becomes another one-qubit gate
+            for _ in range(int(rng.integers(1, 3))):
+                live = sorted(prog.live_ops(), key=lambda o: o.id)
+                cand = [o for o in live if o.kind in ("CNOT", "CZ")] if rng.random() < 0.6 else []
+                cand = cand or [o for o in live if o.kind in programs.ONEQ]
+                if not cand:
+                    break
+                o = cand[int(rng.integers(len(cand)))]
+                node = [n for n, d in circ.dag.nodes(data=True) if d["op"] is o.obj]
+                if not node:
+                    break
+                before = o.text()
+                if o.kind in ("CNOT", "CZ"):
+                    nk = "CZ" if o.kind == "CNOT" else "CNOT"
+                    klass = "B"
+                else:
+                    nk = [k for k in ("H", "X", "P", "Z") if k != o.kind][int(rng.integers(3))]
+                prog.spec_replace(o.id, nk, None)
+                o.obj = make_gq_op(o)
+                circ.replace_op(node[0], o.obj)
+                edits.append(f"replace {before} by {o.text()}")
+                ctx.count("programs:re_evaluated_after_replacement")
         ctx.count("programs:re_evaluated_after_removal")
         check_metrics(prog, circ, klass, rng, ctx, dict(case, after_edits=edits), stage=1, pool=pool)
